@@ -437,7 +437,7 @@ def _parse_schema(
                 )
 
             precision = parsed_schema.get("precision")
-            if precision:
+            if precision is not None:
                 if not isinstance(precision, int) or precision <= 0:
                     raise SchemaParseException(
                         "decimal precision must be a positive integer, "
@@ -453,7 +453,7 @@ def _parse_schema(
                             + f"into array of length {size}"
                         )
 
-            if scale and precision and precision < scale:
+            if scale and precision is not None and precision < scale:
                 raise SchemaParseException(
                     "decimal scale must be less than or equal to "
                     + f"the precision of {precision}"
